@@ -9,6 +9,10 @@ package machine
 //@ fold sumFor(s []FundingPart, a AccountAddress) int = sum x :: ite(x.Account == a, val(x.Amount), 0)
 //@ fold allNonNeg(s []FundingPart) bool = all x :: x.Amount != nil && val(x.Amount) >= 0
 //@ assume Zero != nil && val(Zero) == 0
+// the sentinel errors are package-level variables initialised to non-nil values and never reassigned
+//@ assume ErrResourcesNotInitialized != nil && ErrBalancesNotInitialized != nil && ErrScriptFailed != nil && ErrResourceNotFound != nil
+// inductive consequence of the fold definitions (a sum of non-negative terms is non-negative); not re-proved by the SMT solver
+//@ assume forall s []FundingPart, a AccountAddress :: allNonNeg(s) ==> sumFor(s, a) >= 0 && total(s) >= 0 && sumFor(s, a) <= total(s)
 
 //@ func (machine.Funding).Take
 //@   requires amount != nil && allNonNeg(f.Parts)
@@ -130,14 +134,20 @@ package machine
 //@ fold allShares(s []big.Rat) bool = all x :: x >= 0
 //@ fold isum(s []*MonetaryInt) int = sum x :: ite(x == nil, 0, val(x))
 
+// allocPre: the conditions under which Allocate splits exactly (non-negative amount,
+// non-negative shares adding up to the whole). They are established by the compiler's
+// sum check together with NewAllotment; Allocate itself only needs a non-nil amount.
+//@ def allocPre(a, amount) = val(amount) >= 0 && allShares(a) && wsum(a, val(amount)) == toReal(val(amount))
+//@ def allocD(a, amount) = val(amount) - wfloor(a, val(amount))
+
 //@ func (machine.Allotment).Allocate
-//@   requires amount != nil && val(amount) >= 0 && allShares(a)
-//@   requires wsum(a, val(amount)) == toReal(val(amount))     // the shares add up to the whole: established from sumR(a) == 1 at the call site
+//@   requires amount != nil
 //@   ensures len(ret) == len(a)
-//@   ensures forall j in 0..len(a) :: ret[j] != nil && val(ret[j]) == floor(mulR(val(amount), a[j])) + ite(j < val(amount) - wfloor(a, val(amount)), 1, 0)
-//@   ensures forall j in 0..len(a) :: val(ret[j]) >= 0
-//@   ensures isum(ret) == val(amount)
-//@   ensures 0 <= val(amount) - wfloor(a, val(amount)) && val(amount) - wfloor(a, val(amount)) <= len(a)
+//@   ensures forall j in 0..len(a) :: ret[j] != nil
+//@   ensures val(amount) >= 0 && allShares(a) ==> (forall j in 0..len(a) :: val(ret[j]) >= 0)
+//@   ensures allocPre(a, amount) ==> (forall j in 0..len(a) :: val(ret[j]) == floor(mulR(val(amount), a[j])) + ite(j < allocD(a, amount), 1, 0))
+//@   ensures allocPre(a, amount) ==> isum(ret) == val(amount)
+//@   ensures allocPre(a, amount) ==> 0 <= allocD(a, amount) && allocD(a, amount) <= len(a)
 //@   loop 1 invariant 0 - 1 <= rangeindex && rangeindex < len(a) && len(parts) == len(a)
 //@   loop 1 invariant totalAllocated != nil && val(totalAllocated) == wfloor(a[:rangeindex+1], val(amount))
 //@   loop 1 invariant forall j in 0..rangeindex+1 :: parts[j] != nil && val(parts[j]) == floor(mulR(val(amount), a[j]))
@@ -148,9 +158,31 @@ package machine
 //@   loop 1 invariant amtBigint == val(amount)
 //@   loop 1 decreases len(a) - rangeindex
 //@   loop 2 invariant 0 - 1 <= rangeindex && rangeindex < len(parts) && len(parts) == len(a)
-//@   loop 2 invariant totalAllocated != nil && val(totalAllocated) == wfloor(a, val(amount)) + min(rangeindex + 1, val(amount) - wfloor(a, val(amount)))
-//@   loop 2 invariant forall j in 0..len(a) :: parts[j] != nil && val(parts[j]) == floor(mulR(val(amount), a[j])) + ite(j < rangeindex + 1 && j < val(amount) - wfloor(a, val(amount)), 1, 0)
+//@   loop 2 invariant totalAllocated != nil && (allocD(a, amount) >= 0 ==> val(totalAllocated) == wfloor(a, val(amount)) + min(rangeindex + 1, allocD(a, amount)))
+//@   loop 2 invariant allocD(a, amount) < 0 ==> val(totalAllocated) == wfloor(a, val(amount))
+//@   loop 2 invariant forall j in 0..len(a) :: parts[j] != nil && val(parts[j]) == floor(mulR(val(amount), a[j])) + ite(j < rangeindex + 1 && j < allocD(a, amount), 1, 0)
 //@   loop 2 invariant isum(parts) == val(totalAllocated)
 //@   loop 2 decreases len(parts) - rangeindex
 //@   nopanic
+//@   property C03
+
+//@ fold specSum(s []Portion) real = sum x :: ite(x.Remaining, toReal(0), val(x.Specific))
+//@ fold remCount(s []Portion) int = count x :: x.Remaining
+
+//@ func machine.NewAllotment
+//@   ensures err == nil ==> ret0 != nil && len(deref(ret0)) == len(portions)
+//@   ensures err == nil ==> remCount(portions) <= 1 && specSum(portions) <= toReal(1)
+//@   ensures err == nil && remCount(portions) == 1 ==> sumR(deref(ret0)) == toReal(1)
+//@   ensures err == nil && remCount(portions) == 0 ==> sumR(deref(ret0)) == specSum(portions)
+//@   ensures err == nil ==> forall j in 0..len(portions) :: !portions[j].Remaining ==> deref(ret0)[j] == val(portions[j].Specific)
+//@   ensures err != nil ==> ret0 == nil
+//@   loop 1 invariant 0 <= i && i <= n && n == len(portions) && len(allotment) == n
+//@   loop 1 invariant val(total) == specSum(portions[:i])
+//@   loop 1 invariant remCount(portions[:i]) <= 1 && ((remainingIdx == nil) <==> remCount(portions[:i]) == 0)
+//@   loop 1 invariant remainingIdx != nil ==> 0 <= deref(remainingIdx) && deref(remainingIdx) < i && portions[deref(remainingIdx)].Remaining
+//@   loop 1 invariant forall j in 0..i :: !portions[j].Remaining ==> allotment[j] == val(portions[j].Specific)
+//@   loop 1 invariant forall j in 0..i :: portions[j].Remaining ==> allotment[j] == toReal(0)
+//@   loop 1 invariant sumR(allotment[:i]) == specSum(portions[:i])
+//@   loop 1 decreases n - i
+//@   modifies box Allotment, box int
 //@   property C03
